@@ -39,13 +39,17 @@ class AutoScale(Unit):
             for i in range(n):
                 for j in range(i, n):
                     H[i][j] = H[j][i] = val()
-            cases.append({"kind": kind, "v1": v1, "v2": v2, "H": H, "J": J, "fmt": r.choice(["coo", "csr", "csc"])})
+            cases.append({"kind": kind, "v1": v1, "v2": v2, "H": H, "J": J, "fmt": r.choice(["coo", "csr", "csc"]),
+                          "int_dtype": r.random() < 0.3})
         return cases
 
     def impl(self, case):
         from pygradflow.scale import Scaling
         n, m = len(case["v1"]), len(case["J"])
-        J = sps.coo_matrix(np.array(case["J"], dtype=float).reshape(m, n)).asformat(case["fmt"])
+        Jd = np.array(case["J"], dtype=float).reshape(m, n)
+        if case.get("int_dtype") and np.all(Jd == np.round(Jd)) and np.all(np.abs(Jd) < 2 ** 40):
+            Jd = Jd.astype(np.int64)       # integer-typed derivative data are the same numbers
+        J = sps.coo_matrix(Jd).asformat(case["fmt"])
         H = sps.coo_matrix(np.array(case["H"], dtype=float).reshape(n, n)).asformat(case["fmt"])
         try:
             if case["kind"] == 0:
